@@ -313,3 +313,36 @@ def rule_trim_last_kept(db, chk, cfg, rule="TRIM.last-kept"):
     if n == 0:
         raise AnalysisBroken("TrimCollinear(Path64, bool) not found")
     return n
+
+
+def rule_eps_threshold(db, chk, cfg, rule="EPS.threshold"):
+    """The contract of the simplifiers is stated with a closed threshold: a vertex is removable iff its distance is <= epsilon, it
+    survives iff the distance is > epsilon.  Every comparison between a squared distance and the squared epsilon in SimplifyPath
+    and RDP must draw the line there (`d > eps` / `eps < d` to keep, `d <= eps` / `eps >= d` to remove) - two sites that disagree
+    (one `>`, one `>=`) leave a removable vertex in the result or remove a vertex that is not removable."""
+    n = 0
+    for q, eps_names, dist_pred in (("SimplifyPath", ("epsSqr",), lambda t: t.startswith("distSqr[")), ("RDP", ("epsSqrd", "epsSqr"), lambda t: t in ("max_d", "d"))):
+        for f in db.find(q):
+            if "Paths<" in f.sig.split("(")[0] or "vector<vector" in dqt(f.params[0]):
+                continue
+            for x in walk(f.body):
+                if x.get("kind") != "BinaryOperator" or x.get("opcode") not in ("<", ">", "<=", ">="):
+                    continue
+                a, b = canon(kids(x)[0]), canon(kids(x)[1])
+                if a in eps_names and dist_pred(b):
+                    a, b = b, a
+                    op = {"<": ">", ">": "<", "<=": ">=", ">=": "<="}[x.get("opcode")]
+                elif b in eps_names and dist_pred(a):
+                    op = x.get("opcode")
+                else:
+                    continue
+                n += 1
+                ok = op in (">", "<=")
+                chk.instance(rule, {"function": f.qual, "sig": f.sig[:50], "comparison": canon(x), "normalised": "distance %s epsilon" % op, "cfg": cfg}, ok=ok)
+                if not ok:
+                    chk.violation(rule, f.qual.split("<")[0], "%s|%s" % (a.split("[")[0], op), "`%s` compares a squared distance with the squared epsilon as `distance %s epsilon`: "
+                                  "the threshold of the simplifiers is closed (removable iff distance <= epsilon, kept iff distance > epsilon), and the other "
+                                  "comparisons in the function draw it there" % (canon(x), op), where(x), cfg=cfg)
+    if n < 4:
+        raise AnalysisBroken("EPS.threshold: only %d distance/epsilon comparisons found in SimplifyPath and RDP" % n)
+    return n
